@@ -659,6 +659,14 @@ def case_personalize(chk, env, name, seed, algos, full=True):
     n = rng.choice([2, 3, 4])
     ids = rng.sample(all_ids, n)
     keep = rng.sample(ids, 1 if n == 2 else rng.choice([1, 2]))
+    if "EVENT_TIME" in df.columns:
+        # the individual with the earliest event of the cohort is one of the OTHERS (its event is then changed by the perturbation:
+        # nothing computed for a kept individual may depend on a cohort-level summary of the events)
+        ev = df[df["ID"].isin(ids)].groupby("ID")["EVENT_TIME"].min()
+        first = ev.idxmin()
+        if first in keep:
+            swap = next(i for i in ids if i not in keep)
+            keep = [swap if k == first else k for k in keep]
     ids = [i for i in ids if i not in keep] + [i for i in ids if i in keep]     # the kept individuals come after the others
     relabel = rng.random() < 0.67
     if relabel:
@@ -1738,7 +1746,11 @@ def run(chk: core.Check):
             case_trace(chk, env, name, rng.randrange(1, 10 ** 6), lines, expect, with_eval=True, samplers=1 if quick else 3, big=True)
     pm = list(P_MODELS)
     rng.shuffle(pm)
-    for name in (pm[:3] if quick else pm):
+    if quick:
+        # one model with events in every quick run (the others' events are part of "the others' data"), two without
+        joint = [n for n in pm if "joint" in n]
+        pm = [n for n in pm if "joint" not in n][:2] + joint[:1]
+    for name in pm:
         case_personalize(chk, env, name, rng.randrange(1, 10 ** 6), ALGOS, full=not quick)
     for name in (["logistic_diag_noise"] if quick else ["logistic_diag_noise", "linear_diag_noise", "shared_speed_logistic_diag_noise",
                                                         "univariate_logistic"]):
